@@ -362,8 +362,8 @@ class RescaleAction(Case):
 class PPOEvalAction(Case):
     """PPO.get_action in evaluation mode with a Box action space"""
     functions = (PPO.get_action,)
-    stubs = ("PPO._get_action_and_values = stub returning symbolic (action, log_prob, entropy, value); the squashed policy's action is already scaled "
-             "into the Box by StochasticActor.forward (its contract, checked in C16)",)
+    stubs = ("PPO._get_action_and_values = stub returning symbolic (action, log_prob, entropy, value); with squash_output the head returns tanh(u) in [-1,1] "
+             "(PPO calls the head directly, StochasticActor.forward's scaling is not on this path)",)
     LOW, HIGH = [-1.0, 0.5], [2.0, 0.75]
 
     def __init__(self, squash, training, B=2):
@@ -390,7 +390,7 @@ class PPOEvalAction(Case):
         if self.squash:
             for b in range(B):
                 for k in range(2):
-                    v.assume(conj(val(raw, b, k) >= self.LOW[k], val(raw, b, k) <= self.HIGH[k]), "a squashed policy returns actions already scaled into the Box")
+                    v.assume(conj(val(raw, b, k) >= -1, val(raw, b, k) <= 1), "a squashed head returns tanh(u) in [-1,1]")
         lp, ent, value = v.tensor("lp", (B,)), v.tensor("ent", (B,)), v.tensor("value", (B,))
         obs = v.array("obs", (B, 1))
         patches = [(agent, "_get_action_and_values", lambda o, m=None: (raw, lp, ent, value)), (agent, "training", self.training)]
@@ -407,6 +407,9 @@ class PPOEvalAction(Case):
                 for k in range(2):
                     res.append(Ob(f"row{b}/dim{k}/evaluation-action-inside-the-bounds", conj(ge(act[b, k], self.LOW[k]), le(act[b, k], self.HIGH[k])),
                                   site=self.exception_site))
+                    if self.squash:
+                        res.append(Ob(f"row{b}/dim{k}/squashed-action-is-scaled-affinely-into-the-box",
+                                      eq(act[b, k], self.LOW[k] + 0.5 * (val(raw, b, k) + 1) * (self.HIGH[k] - self.LOW[k])), site=self.exception_site))
         else:
             res.append(Ob("training-action-is-the-sampled-action", conj(*[eq(act[b, k], val(raw, b, k)) for b in range(B) for k in range(2)])))
         return res
